@@ -92,6 +92,26 @@ Theorem C04_assert_rule : forall lt s,
 Proof. exact assert_rule. Qed.
 Print Assumptions C04_assert_rule.
 
+(* assignment targets (spec.md "Assignments"): a variable, an indexed array, a map field — for all root
+   types and all chains; never a character of a string, a slice or a type assertion; no panic *)
+Theorem C04_target_ok_iff : forall ks t,
+  spec_ty t = true -> has_empty t = false -> forallb spec_step ks = true ->
+  forall s, (TargetChain (erase t) (map erase_step ks) s <->
+             exists T, target_chain t ks = Some (Some T) /\ erase T = s).
+Proof. exact target_ok_iff. Qed.
+Print Assumptions C04_target_ok_iff.
+
+Theorem C04_target_chain_no_crash : forall ks t,
+  spec_ty t = true -> has_empty t = false -> forallb spec_step ks = true -> target_chain t ks <> None.
+Proof. exact target_chain_no_crash. Qed.
+Print Assumptions C04_target_chain_no_crash.
+
+Theorem C04_target_string_char_rejected : forall ks t it rest,
+  spec_ty t = true -> has_empty t = false -> forallb spec_step ks = true ->
+  target_chain t ks = Some (Some TString) -> target_chain t (ks ++ KIdx it :: rest) = Some None.
+Proof. exact target_string_char_rejected. Qed.
+Print Assumptions C04_target_string_char_rejected.
+
 (* inference replaces exactly the empty leaves by any and keeps the Fixed flags *)
 Theorem C04_infer_spec : forall t, spec_ty t = true ->
   exists t', infer t = Some t' /\ Defaults (erase t) (erase t') /\
@@ -228,3 +248,11 @@ Example C04_ex_combine_pure_nonvacuous :
   combine [TArr true TAny; TArr false TNum; TArr false TString] = Some (TArr true TAny) /\
   combine [TArr false TNum; TArr false TString; TArr true TAny] = Some (TArr true TAny).
 Proof. vm_compute. repeat split; repeat constructor. Qed.
+
+(* targets: people[1].name is a target of type string, people[1].name[0] is not a target *)
+Example C04_ex_targets :
+  target_chain (TArr true (TMap false TString)) [KIdx TNum; KDot] = Some (Some TString) /\
+  target_chain (TArr true (TMap false TString)) [KIdx TNum; KDot; KIdx TNum] = Some None /\
+  check (CAssignTo (SArr (SMap SString)) [TIdx ELitNum; TDot; TIdx ELitNum]) ELitStr = Reject /\
+  check (CAssignTo (SArr (SMap SString)) [TIdx ELitNum; TDot]) ELitStr = Accept TString TString.
+Proof. vm_compute. repeat split; reflexivity. Qed.
